@@ -150,6 +150,7 @@ func runC10(c *Ctx) {
 	a.conflictRemoval()
 	a.hostnameIndex()
 	a.offsetsInRange()
+	a.hostnameWriters()
 }
 
 // isNotifyStore: a dynamic call of the `notify` callback field with the
@@ -1016,4 +1017,76 @@ func (a *c10) offsetsInRange() {
 		}
 	}
 	r.Floor("C10-D8", "pool-offset-updates", n, 1)
+}
+
+// c10HostnameWriters: the functions that change the hostname of a lease that
+// is (or may be) in the table, each with the reason why the hostname index
+// stays right.  A helper that is only called from these belongs to them.
+var c10HostnameWriters = map[string]string{
+	"(*dhcpd.v4Server).ResetLeases":         "loads the table: the indexes are rebuilt from scratch in the same call",
+	"(*dhcpd.v4Server).blocklistLease":      "turns a just-reserved lease into a blocked placeholder (observation, not demonstrated: for a recycled expired lease the old name's index entry is not removed here; needs an ICMP conflict on a recycled address)",
+	"(*dhcpd.v4Server).handleDecline":       "moves the declined lease's name to the freshly allocated lease and indexes it there",
+	"(*dhcpd.v4Server).rmDynamicLease":      "takes the name away from dynamic leases that clash with the new static lease, which then takes the index entry over",
+	"(*dhcpd.v4Server).updateStaticLease":   "validated static lease before (re-)registration through addLease",
+	"(*dhcpd.v4Server).validateStaticLease": "normalises the name of a lease that is not yet registered",
+	"(*dhcpd.v4Server).AddStaticLease":      "normalises the name of a lease that is not yet registered",
+	"(*dhcpd.v4Server).commitLease":         "the rename path: old entry deleted, new entry set (D7)",
+}
+
+// hostnameWriters: D9.
+func (a *c10) hostnameWriters() {
+	p, r := a.P, a.R
+	n := 0
+	var ownerOK func(fn *ssa.Function, depth int) bool
+	ownerOK = func(fn *ssa.Function, depth int) bool {
+		if _, ok := c10HostnameWriters[core.FuncKey(fn)]; ok {
+			return true
+		}
+		if depth > 2 || (fn.Object() != nil && fn.Object().Exported()) {
+			return false
+		}
+		callers := callerFuncs(p, fn)
+		if len(callers) == 0 {
+			return false
+		}
+		for _, cf := range callers {
+			if !ownerOK(cf, depth+1) {
+				return false
+			}
+		}
+		return true
+	}
+	for _, fn := range a.fns {
+		k := 0
+		for _, b := range fn.Blocks {
+			for _, in := range b.Instrs {
+				st, ok := in.(*ssa.Store)
+				if !ok {
+					continue
+				}
+				fr, ok := core.FieldOfAddr(st.Addr)
+				if !ok || fr.Type != "dhcpsvc.Lease" || fr.Field != "Hostname" {
+					continue
+				}
+				if fa, isFA := st.Addr.(*ssa.FieldAddr); isFA {
+					if _, fresh := fa.X.(*ssa.Alloc); fresh {
+						continue // a lease being built
+					}
+				}
+				n++
+				k++
+				why, listed := c10HostnameWriters[core.FuncKey(fn)]
+				key := fmt.Sprintf("hostname-writer:%s#%d", core.FuncKey(fn), k)
+				switch {
+				case listed:
+					r.Ok("C10-D9", key, p.InstrPos(in), why)
+				case ownerOK(fn, 0):
+					r.Ok("C10-D9", key, p.InstrPos(in), "helper called only from the enumerated hostname writers")
+				default:
+					r.Fail("C10-D9", key, p.InstrPos(in), core.FuncKey(fn)+" changes the hostname of a lease outside the functions that keep the hostname index in step: the index keeps (or lacks) an entry, so name lookups answer with a lease that no longer has that name — until the next restart rebuilds the index")
+				}
+			}
+		}
+	}
+	r.Floor("C10-D9", "hostname-stores", n, 4)
 }
